@@ -90,6 +90,19 @@ Fixpoint go_card_loop (T : tables) (trips : list text) (digits : text) (i : Z) (
       | Some words => if (i <? 0)%Z then Some words else go_card_loop T rest digits i words one (t_teen T)
       end
   end.
+(* w[:len(w)-1] + "ieth" when w ends in y, w + "th" otherwise *)
+Definition go_ordinal_suffix (w : text) : text :=
+  if ascii_eqb (last w zero) "y" then removelast w ++ tx "ieth" else w ++ tx "th".
+(* if last := len(digits) - 1; colon && digits[last] == '0' && digits[last-1] != '1' { words[0] = ... } ;
+   None: index out of range (digits[-1], words[0] of an empty slice) *)
+Definition go_ordinal_first (colon : bool) (digits : text) (words : list text) : option (list text) :=
+  let lst := List.length digits - 1 in
+  if colon && ascii_eqb (ch_at digits lst) "0" then
+    (if Nat.eqb lst 0 then None
+     else if negb (ascii_eqb (ch_at digits (lst - 1)) "1")
+          then match words with [] => None | w :: ws => Some (go_ordinal_suffix w :: ws) end
+          else Some words)
+  else Some words.
 Definition go_english (T : tables) (colon : bool) (digits : text) : option text :=
   let '(neg, digits) := match digits with "-" :: r => (true, r) | _ => (false, digits) end in
   match digits with
@@ -100,7 +113,11 @@ Definition go_english (T : tables) (colon : bool) (digits : text) : option text 
     match go_card_loop T (t_triples T) digits (Z.of_nat (List.length digits) - 1)%Z []
                        (if colon then t_ordone T else t_one T) (if colon then t_ordteen T else t_teen T) with
     | None => None
-    | Some words => Some (join [sp] (rev (if neg then words ++ [tx "negative"] else words)))
+    | Some words =>
+      match go_ordinal_first colon digits words with
+      | None => None
+      | Some words => Some (join [sp] (rev (if neg then words ++ [tx "negative"] else words)))
+      end
     end
   end.
 
